@@ -23,8 +23,11 @@ func init() {
 		},
 		Workloads: []core.Workload{
 			{Name: "storage", Variant: "plain", N: core.Tiered(630, 15000), Run: c13Case, TimeoutS: 120},
+			// simulation-length runs (1000-2500 daily steps in ONE Run call) whose release follows a sloped curve while the
+			// volume cycles, i.e. hundreds of thousands to millions of sub-steps per call
+			{Name: "storage-long", Variant: "plain", N: core.Tiered(6, 60), Run: c13Long, TimeoutS: 600},
 		},
-		RequireTags: func(string) []string { return []string{"spill", "empty", "substeps>1", "demand-met", "demand-above-max", "demand-below-min"} },
+		RequireTags: func(string) []string { return []string{"spill", "empty", "substeps>1", "demand-met", "demand-above-max", "demand-below-min", "long-run"} },
 	})
 }
 
@@ -64,27 +67,41 @@ func tableRange(a, b float64, xs, ys []float64) (lo, hi float64) {
 	return
 }
 
-func c13Case(c *core.Ctx) {
+func c13Case(c *core.Ctx) { c13Run(c, false) }
+func c13Long(c *core.Ctx) { c13Run(c, true) }
+
+func c13Run(c *core.Ctx, long bool) {
 	model := "Storage"
 	desc := NewModel(model).Description()
 	n := c.R.IntRange(2, 6)
 	ps := storagePSet(desc, c.R, n)
 	tbl := func(name string) []float64 { return ps[paramIndex(desc, name)] }
+	if long {
+		ps[paramIndex(desc, "DeltaT")][0] = 86400
+	}
 	dt := ps[paramIndex(desc, "DeltaT")][0]
 	vols, areas, levels, minRel, maxRel := tbl("volumes"), tbl("areas"), tbl("levels"), tbl("minRelease"), tbl("maxRelease")
 	vmax := vols[n-1]
 	T := c.R.IntRange(5, 60)
+	if long {
+		T = c.R.IntRange(1000, 2500)
+	}
 	in := GenInputs(model, c.R, T, ps)
 	iI := func(s string) int { return indexOf(desc.Inputs, s) }
 	scenario := c.R.Intn(7)
-	scn := []string{"mixed", "fill-to-spill", "draw-down", "heavy-rain", "evaporation", "demand-sweep", "gentle-spill"}[scenario]
-	if scenario == 6 {
-		// spillway regime: a spill rating that matters, inflow between 1x and 2x the rating, storage near full supply
-		if minRel[n-1] < 1 {
-			minRel[n-1] = c.R.Range(1, 8)
-		}
-		if maxRel[n-1] < minRel[n-1] {
-			maxRel[n-1] = minRel[n-1]
+	if long {
+		scenario = 7
+	}
+	scn := []string{"mixed", "fill-to-spill", "draw-down", "heavy-rain", "evaporation", "demand-sweep", "gentle-spill", "long-run"}[scenario]
+	qcap := 0.0
+	if scenario == 7 {
+		// a release curve with a real slope at every volume (0 when empty up to a capacity that turns the storage over
+		// in 5-20 timesteps) and no minimum release; a demand above the capacity makes the release track the curve
+		qcap = vmax / dt * c.R.Range(0.05, 0.2)
+		pw := c.R.Range(0.5, 2)
+		for i := 0; i < n; i++ {
+			minRel[i] = 0
+			maxRel[i] = qcap * math.Pow(vols[i]/vmax, pw)
 		}
 	}
 	relTop := maxRel[n-1]
@@ -116,6 +133,23 @@ func c13Case(c *core.Ctx) {
 		for t := 0; t < T; t++ {
 			in[iI("demand")][t] = relTop * c.R.Range(0, 2)
 		}
+	case 7:
+		// wet and dry seasons around the release capacity: the volume keeps moving along the sloped curve
+		season := c.R.IntRange(10, 60)
+		for t := 0; t < T; t++ {
+			f := c.R.Range(0, 0.3)
+			if (t/season)%2 == 0 {
+				f = c.R.Range(0.8, 1.5)
+			}
+			in[iI("inflow")][t] = qcap * f
+			in[iI("demand")][t] = qcap*2 + 1
+			if c.R.Bool(0.2) { // an order that the curves allow at most volumes: the release must equal it
+				in[iI("demand")][t] = qcap * c.R.Range(0.02, 0.2)
+			}
+			if c.R.Bool(0.7) {
+				in[iI("rainfall")][t], in[iI("pet")][t] = 0, 0
+			}
+		}
 	case 6:
 		for t := 0; t < T; t++ {
 			in[iI("inflow")][t] = minRel[n-1] * c.R.Range(1, 2)
@@ -139,6 +173,11 @@ func c13Case(c *core.Ctx) {
 		return
 	}
 	subs := storage.VerifSubsteps()
+	if long {
+		c.Tag("long-run")
+		c.Max("max_substeps_in_one_run", float64(len(subs)))
+		c.Max("max_timesteps_in_one_run", float64(T))
+	}
 	o := func(s string) []float64 { return out.Out[0][indexOf(desc.Outputs, s)] }
 	V, Q, RV, EV := o("volume"), o("outflow"), o("rainfallVolume"), o("evaporationVolume")
 	prev := v0
